@@ -77,6 +77,19 @@ def directed_catalogs(rng, big):
         out.append((POT, [G.E('<b>x', msgstr='', comment=s)]))
     return out
 
+def format_pair_catalogs(fmts):
+    """EXHAUSTIVE: every unordered pair of positive format flags, every format alone and with each prefixed variant of itself; one
+    single-message catalog each, so that a wrong row of the data table yields a minimal replay whichever format it concerns"""
+    PO = {'is_template': False, 'is_binary': False, 'hidden': False, 'encoding': True}
+    out = []
+    for i, a in enumerate(fmts):
+        out.append((PO, [G.E(a, msgstr='x', flags=[a + '-format'])]))
+        for b in fmts[i + 1:]:
+            out.append((PO, [G.E('m', msgstr='x', flags=[a + '-format', b + '-format'])]))
+        for p, q in (('', 'no-'), ('', 'possible-'), ('', 'impossible-'), ('no-', 'possible-'), ('no-', 'impossible-'), ('possible-', 'impossible-')):
+            out.append((PO, [G.E('m', msgstr='x', flags=[p + a + '-format', q + a + '-format'])]))
+    return out
+
 def case_json(ctx, entries):
     return {'ctx': ctx, 'entries': [e.as_dict() for e in entries]}
 
@@ -116,7 +129,10 @@ def main():
         formats = {k: frozenset(v) for k, v in gettext.string_formats.items()}
     except Exception:
         formats = {}
-    fmts = sorted(formats) or G.formats()
+    # the falsifier's reference rules decide known formats and their compatibility with the HAND-MAINTAINED reference table
+    # (Spec/StringFormatsRef.lean), not with the data file the tool (and the regenerated model) read
+    ref_view = M.reference_view(formats)
+    fmts = sorted(ref_view) or G.formats()
 
     # ---------------- inputs
     seeds = corpus()
@@ -124,6 +140,7 @@ def main():
     n_cat = (60000 if big else 7000) * boost
     cases += [G.gen_catalog(rng, fmts) for _ in range(n_cat)]
     cases += directed_catalogs(rng, big)
+    cases += format_pair_catalogs(fmts)
     results = [M.run_impl(ctx, entries) for ctx, entries in cases]     # (line, attributed calls, tail)
 
     # ---------------- correspondence: real code vs Lean model
@@ -231,7 +248,7 @@ def main():
                 n = '?'
         return n
     def expected_of(ctx, entries):
-        per, tail = M.ref_rules(ctx, entries, formats, repr_of, xml_verdict, ctl_name)
+        per, tail = M.ref_rules(ctx, entries, ref_view, repr_of, xml_verdict, ctl_name)
         return [sorted(tuple(str(x) for x in item) for item in out) for out in per], [tuple(t) for t in tail]
     def observed_of(calls, tail, n):
         per = [[] for _ in range(n)]
